@@ -54,6 +54,11 @@ def alphabet(cs, cls, reduced=False):
     for s in setters:
         if s in ("centroid", "center"):
             A.append(("move", s, None))
+            if not reduced:
+                # the same move with the target in the forms a caller may hold it in: a row of the shape's own vertex array
+                # (a view that the move itself rewrites) and a position buffer that the caller reuses afterwards
+                A.append(("move-view", s, None))
+                A.append(("move-buffer", s, None))
             continue
         if s == "radius" and cls.__name__.startswith("ConvexSphero"):
             A.append(("set", s, 0.5))
@@ -172,6 +177,8 @@ def opname(op):
         return f"{name}.setter({val})"
     if kind == "move":
         return f"{name}.setter(move)"
+    if kind in ("move-view", "move-buffer"):
+        return f"{name}.setter({kind})"
     if kind == "read":
         return f"read:{name}"
     if kind == "core-set":
@@ -183,7 +190,7 @@ def opname(op):
 
 def mechname(op):
     kind, name, val = op
-    if kind in ("set", "move"):
+    if kind in ("set", "move", "move-view", "move-buffer"):
         return name + ".setter"
     if kind == "abs":
         return f"{name}.setter(bad-target)" if not (val == 0.0 and name == "radius") else name + ".setter"
@@ -223,6 +230,20 @@ def apply_op(obj, op):
                     return "n/a", "not provided"
                 size, _ = fpr.length_scale(obj)
                 setattr(obj, name, cur + np.array([0.6, -1.1, 0.45]) * (size / 3.0))     # a move of the order of the shape's size
+            elif kind in ("move-view", "move-buffer"):
+                try:
+                    cur = np.asarray(getattr(obj, name), float)
+                except (NotImplementedError, ImportError):
+                    return "n/a", "not provided"
+                if kind == "move-view":
+                    V = obj.vertices
+                    setattr(obj, name, V[len(V) // 2])            # a view into the array that the move shifts
+                else:
+                    size, _ = fpr.length_scale(obj)
+                    buf = cur + np.array([-0.4, 0.9, 0.7]) * (size / 3.0)
+                    setattr(obj, name, buf)
+                    buf += 3.3 * size                              # the caller moves on with its buffer
+                    buf[:] = np.nan
             elif kind == "read":
                 getattr(obj, name)
             elif kind in ("core-set", "core-move"):
